@@ -124,51 +124,36 @@ theorem construct_wf (cls : Cls) (k : Src) (data : Bytes) (off len : Option Int)
 /-! ### tofile writes exactly tobytes(), for every length and every whole-byte chunk size -/
 
 /-- Every chunk but the last is whole bytes, so the per-chunk padding never lands inside the data.
-    Full statement (`∀ lsb0`) is false — see `tofile_lsb0_witness`; proved on the region
-    `¬ tofile_lsb0_multichunk`, i.e. msb0 mode, or lsb0 mode with an object that fits in one chunk. -/
-theorem tofile_eq_toBytes_partial (lsb0 : Bool) (chunk : Nat) (s : Store) (hwf : s.WF) (h8 : 8 ∣ chunk)
-    (hpos : 0 < chunk) (hregion : lsb0 = false ∨ s.bin.length ≤ chunk) :
-    tofile lsb0 chunk s = .ok (toBytes s.bin) := by
-  cases lsb0 with
-  | false => exact tofile_eq chunk s hwf (by omega) hpos
-  | true =>
-    rcases hregion with h | h
-    · cases h
-    · exact tofile_lsb0_single chunk s hwf hpos h
-
-/-- Known deviation (region `tofile_lsb0_multichunk`): under `options.lsb0` `cut` hands out the chunks from the
-    other end, so a bitstring longer than the chunk is written wrongly (here: 17 bits, chunk of 8). -/
-theorem tofile_lsb0_witness :
-    let l : Bits := List.replicate 8 true ++ List.replicate 8 false ++ [true]
-    toBytes l = [255, 0, 128] ∧ tofile true 8 (Store.mem l) = .ok [1, 254, 128] ∧
-    tofile false 8 (Store.mem l) = .ok [255, 0, 128] := by
-  decide
+    (The loop walks `_absolute_slice`, i.e. msb0 positions, so `options.lsb0` plays no part. Before 14ceb68 it
+    iterated `cut()`, whose chunks follow lsb0 numbering: a 17-bit `ff 00 8` with an 8-bit chunk was written as
+    `01 fe 80` — finding `tofile-lsb0-chunks`, fixed.) -/
+theorem tofile_eq_toBytes (chunk : Nat) (s : Store) (hwf : s.WF) (h8 : 8 ∣ chunk) (hpos : 0 < chunk) :
+    tofile chunk s = .ok (toBytes s.bin) := by
+  exact tofile_eq chunk s hwf (by omega) hpos
 
 /-- GENERATED obligation: the chunk size in the working tree (re-extracted on every run) is a positive
     multiple of 8. -/
 theorem tofile_chunk_whole_bytes : 8 ∣ Gen.tofileChunk ∧ 0 < Gen.tofileChunk := by
   decide
 
-/-- Hence `tofile` as shipped writes `tobytes()`, for every length — below, at and above the chunk size
-    (same region as `tofile_eq_toBytes_partial`). -/
-theorem tofileDefault_eq_toBytes_partial (lsb0 : Bool) (s : Store) (hwf : s.WF)
-    (hregion : lsb0 = false ∨ s.bin.length ≤ Gen.tofileChunk) :
-    tofileDefault lsb0 s = .ok (toBytes s.bin) :=
-  tofile_eq_toBytes_partial lsb0 _ s hwf tofile_chunk_whole_bytes.1 tofile_chunk_whole_bytes.2 hregion
+/-- Hence `tofile` as shipped writes `tobytes()`, for every length — below, at and above the chunk size. -/
+theorem tofileDefault_eq_toBytes (s : Store) (hwf : s.WF) : tofileDefault s = .ok (toBytes s.bin) :=
+  tofile_eq_toBytes _ s hwf tofile_chunk_whole_bytes.1 tofile_chunk_whole_bytes.2
 
-/-- A chunk size of zero is refused (`cut`: "bits must be >= 0"), nothing is written. -/
-theorem tofile_zero_chunk (lsb0 : Bool) (s : Store) : tofile lsb0 0 s = .error .value := by
-  simp [tofile, cut, Except.map]
+/-- A chunk size of zero is refused (`range()` with a zero step), nothing is written. -/
+theorem tofile_zero_chunk (s : Store) : tofile 0 s = .error .value := by
+  simp [tofile]
 
-/-- The pieces `cut` yields are the object's bits in order (nothing lost, nothing repeated) — msb0. -/
-theorem cut_flatten (chunk : Nat) (s : Store) (hwf : s.WF) (hpos : 0 < chunk) (cs : List Store)
-    (h : cut false s chunk = .ok cs) : (cs.map Store.bin).flatten = s.bin := by
-  exact cut_flatten_eq chunk s hwf hpos cs h
+/-- The whole-byte hypothesis is needed: with a chunk that is not a multiple of 8 the padding of an inner chunk
+    lands inside the data (this is what a non-multiple chunk constant in the source would do). -/
+theorem tofile_non_byte_chunk_witness :
+    tofile 4 (Store.mem (List.replicate 8 true)) = .ok [240, 240] ∧ toBytes (List.replicate 8 true) = [255] := by
+  decide
 
 /-- Write with `tofile`, read back `length = len(l)` from any kind of source (bytes, BytesIO, file — the
     empty file included), into any class: the original bits. -/
 theorem roundtrip (cls : Cls) (k : Src) (chunk : Nat) (l : Bits) (h8 : 8 ∣ chunk) (hpos : 0 < chunk) :
-    (tofile false chunk (Store.mem l) >>= fun w =>
+    (tofile chunk (Store.mem l) >>= fun w =>
       (construct cls k w (some (l.length : Int)) none).map Store.bin) = .ok l := by
   exact roundtrip_eq cls k chunk l (by omega) hpos
 
@@ -178,7 +163,7 @@ theorem window_then_serialise (cls : Cls) (k : Src) (data : Bytes) (off len : Op
     (h : validWindow (8 * data.length) off len = true) (h8 : 8 ∣ chunk) (hpos : 0 < chunk) :
     ∃ s, construct cls k data len off = .ok s ∧ s.bin = readSpec data off len ∧
       s.tobytes = toBytes (readSpec data off len) ∧
-      tofile false chunk s = .ok (toBytes (readSpec data off len)) ∧
+      tofile chunk s = .ok (toBytes (readSpec data off len)) ∧
       ((readSpec data off len).length % 8 = 0 → bytesProp s = .ok (toBytes (readSpec data off len))) := by
   obtain ⟨s, hs, hwf, hb⟩ := construct_valid cls k data off len h
   refine ⟨s, hs, hb, ?_, ?_, ?_⟩
@@ -194,14 +179,10 @@ theorem window_then_serialise (cls : Cls) (k : Src) (data : Bytes) (off len : Op
 theorem arrayTobytes_eq (data : Bits) : arrayTobytes data = toBytes data := by
   exact arrayTobytes_eq' data
 
-/-- `Array.tofile` is `data.tofile`: same statement, same region as `tofile_eq_toBytes_partial`. -/
-theorem arrayTofile_eq_partial (lsb0 : Bool) (chunk : Nat) (data : Bits) (h8 : 8 ∣ chunk) (hpos : 0 < chunk)
-    (hregion : lsb0 = false ∨ data.length ≤ chunk) :
-    arrayTofile lsb0 chunk data = .ok (toBytes data) := by
-  have := tofile_eq_toBytes_partial lsb0 chunk (Store.mem data) (wf_mem data) h8 hpos
-    (by rw [bin_of_none _ rfl]; exact hregion)
-  rw [bin_of_none _ rfl] at this
-  exact this
+/-- `Array.tofile` is `data.tofile`. -/
+theorem arrayTofile_eq (chunk : Nat) (data : Bits) (h8 : 8 ∣ chunk) (hpos : 0 < chunk) :
+    arrayTofile chunk data = .ok (toBytes data) := by
+  exact arrayTofile_eq' chunk data (by omega) hpos
 
 /-- `fromfile(f)` appends every whole item of the file, `fromfile(f, n)` the first `n` — nothing else
     (msb0; an open file goes through `_setfile`, a BytesIO through `frombytes`). -/
@@ -229,14 +210,14 @@ theorem arrayFromfile_short (data : Bits) (isz : Nat) (file : Bytes) (fk : FKind
 /-- Array round trip: what `tofile` wrote reads back as the whole items of the zero-padded data. -/
 theorem array_roundtrip (data : Bits) (isz chunk : Nat) (fk : FKind) (h8 : 8 ∣ chunk) (hpos : 0 < chunk)
     (hisz : 0 < isz) :
-    (arrayTofile false chunk data >>= fun w => arrayFromfile [] isz w fk none) =
+    (arrayTofile chunk data >>= fun w => arrayFromfile [] isz w fk none) =
       .ok ((padded data).take ((padded data).length / isz * isz)) := by
   exact array_roundtrip_eq data isz chunk fk (by omega) hpos hisz
 
 /-- … which is the data itself when it is whole bytes and whole items. -/
 theorem array_roundtrip_exact (data : Bits) (isz chunk : Nat) (fk : FKind) (h8 : 8 ∣ chunk) (hpos : 0 < chunk)
     (hisz : 0 < isz) (hb : data.length % 8 = 0) (hi : data.length % isz = 0) :
-    (arrayTofile false chunk data >>= fun w => arrayFromfile [] isz w fk none) = .ok data := by
+    (arrayTofile chunk data >>= fun w => arrayFromfile [] isz w fk none) = .ok data := by
   rw [array_roundtrip_eq data isz chunk fk (by omega) hpos hisz, padded_of_dvd data hb]
   have : data.length / isz * isz = data.length := by
     have := Nat.div_add_mod data.length isz
@@ -252,9 +233,8 @@ example : (construct .bitArray .file [165, 60, 255] (some 13) (some 3)).map Stor
     = .ok [false, false, true, false, true, false, false, true, true, true, true, false, false] := by decide
 example : (construct .bits .bytesio [165, 60, 255] none (some 9)).map Store.bin
     = .ok (readSpec [165, 60, 255] (some 9) none) := by decide
-example : tofile false 8 (Store.mem [true, false, true, true, false, false, true, true, true]) = .ok [179, 128] := by decide
+example : tofile 8 (Store.mem [true, false, true, true, false, false, true, true, true]) = .ok [179, 128] := by decide
 example : (construct .bits .file [] none none).map Store.bin = .ok [] := by decide
-example : (true = false ∨ (Store.mem [true, false, true]).bin.length ≤ 8) ∧ 8 ∣ 8 := by decide
 example : (8 ∣ 16) ∧ 0 < 16 ∧ (Store.mem [true]).WF := by
   refine ⟨by decide, by decide, ?_⟩
   intro n h; cases h
